@@ -9,5 +9,6 @@ structure NsInv (s : N) : Prop where
       s.names p kd x = some e ↔ (s.parent e = some p ∧ e.kind = kd ∧ (s.info e).name = some x)
   idents_iff : ∀ p, s.hasTbl p = true → s.tpol p = .edif → ∀ kd y e,
       s.idents p kd y = some e ↔ (s.parent e = some p ∧ e.kind = kd ∧ ((s.info e).ident).map lower = some y)
+  parent_kind : ∀ c p, s.parent c = some p → validParent p.kind c.kind = true
 
 end Spydr.Names
